@@ -224,6 +224,13 @@ def run_case(desc):
                 big = np.full(tuple(2 * k for k in a.shape), np.nan)
                 big[tuple(slice(None, None, 2) for _ in a.shape)] = a
                 a_in = big[tuple(slice(None, None, 2) for _ in a.shape)]
+            elif (desc["seed"] >> 9) % 3 == 1 and a.ndim >= 2:
+                # the same values in another memory layout: Fortran order, or an axis-permuted view (swapaxes / moveaxis)
+                if (desc["seed"] >> 11) % 2 or a.ndim == 2:
+                    a_in = np.asfortranarray(a)
+                else:
+                    perm = gen.rng_for("c18perm", desc["seed"]).permutation(a.ndim)
+                    a_in = np.ascontiguousarray(a.transpose(perm)).transpose(np.argsort(perm))
             a_before = a_in.copy()
             r1 = U.simple_batch(a_in, random_state=s, batch_size=bs, return_utilities=ru)
             r2 = U.simple_batch(a_in, random_state=s, batch_size=bs, return_utilities=ru)
